@@ -290,7 +290,7 @@ func verifRun(c *mon.Case) *mon.Result {
 	}
 {{end}}
 	opts = append(opts, func(p *parser) Option { vp = p; mon.SetLive(&p.ExprCnt); return nil })
-	in := append([]byte(nil), c.Input...)
+	in := append([]byte{}, c.Input...) // never nil: Parse and ParseReader must see the same kind of buffer
 	var val any
 	var err error
 	func() {
@@ -332,6 +332,11 @@ func verifRun(c *mon.Case) *mon.Result {
 	}
 {{end}}
 	res.Val = mon.Canon(val)
+	if sh := mon.Shape(val); len(sh) <= 400 {
+		res.Shape = sh
+	} else {
+		res.Shape = fmt.Sprintf("%s...#%d", sh[:380], len(sh))
+	}
 	res.Trace = tr.Events
 	res.StateIDs = tr.StateID
 	res.Dropped = tr.Dropped
